@@ -147,9 +147,22 @@ def inline_cases():
     return out
 
 
+def flat_union_cases():
+    """structs of flattened Option members (what typify writes for an anyOf of objects it cannot prove exclusive): no member is ever required, so the
+    empty builder builds what {} deserialises to, and T -> builder -> T is the identity"""
+    out = []
+    e = {"type": "string"}
+    variants = {"overlap": [{"type": "object", "properties": {"email": e, "phone": e}, "required": ["email"]}, {"type": "object", "properties": {"email": e, "phone": e}, "required": ["phone"]}],
+                "open_pair": [{"type": "object", "properties": {"a": INT}}, {"type": "object", "properties": {"b": INT}}]}
+    for vn, subs in variants.items():
+        out.append({"id": "builder[anyof-flat:%s]" % vn, "doc": {"definitions": {"P": P, "T": {"anyOf": subs}}}, "target": "T", "members": [], "settings": {"struct_builder": True}})
+    return out
+
+
 def cases(tier, seed):
     sp = specs()
     out = [mk([m]) for m in sp]
+    out += flat_union_cases()
     out += recursive_cases()
     out += inline_cases()
     if tier == "quick":
